@@ -1355,8 +1355,14 @@ impl ReManager {
             e
         } else {
             match &e.expr {
-                // empty ^ [i, j] --> empty
-                BaseRegLan::Empty => self.empty,
+                // empty ^ [0, j] --> epsilon and empty ^ [i, j] --> empty if i > 0
+                BaseRegLan::Empty => {
+                    if range.start() == 0 {
+                        self.epsilon
+                    } else {
+                        self.empty
+                    }
+                }
                 // epsilon ^ [i, j] --> epsilon
                 BaseRegLan::Epsilon => self.epsilon,
                 // (R ^[i,j]) ^ [k, l] --> R ^[i *k, j*l] if the product is exact
